@@ -1045,8 +1045,9 @@ fn analyze_partial_pattern(
                             None,
                         )
                     } else {
-                        // First occurrence - record it and create a binding. Strip [] because if
-                        // the binding executes, the value is not [].
+                        // First occurrence - record it and create a binding. The binder takes
+                        // the field's type as it is: a shorthand field is a bare binder, which
+                        // binds nil like any other value, and no requirement keeps nil out.
                         variant_identifiers.insert(
                             field_name.clone(),
                             Identifier {
@@ -1054,13 +1055,12 @@ fn analyze_partial_pattern(
                                 is_repeated: false,
                             },
                         );
-                        let var_type_id = without_nil(field_type_id, program);
                         (
                             None,
                             Some(Binding {
                                 name: field_name.clone(),
                                 path: field_path,
-                                var_type_id,
+                                var_type_id: field_type_id,
                             }),
                         )
                     };
@@ -1196,13 +1196,12 @@ fn analyze_star_pattern(
                         },
                     );
 
-                    // Create a binding for this identifier
-                    // Strip [] from binding type because if the binding executes, the value is not []
-                    let var_type_id = without_nil(*field_type_id, program);
+                    // Create a binding for this identifier. It takes the field's type as it is:
+                    // a star binds every named field, nil included, and emits no non-nil requirement
                     bindings.push(Binding {
                         name: field_name.clone(),
                         path: field_path,
-                        var_type_id,
+                        var_type_id: *field_type_id,
                     });
                 }
             }
@@ -1405,45 +1404,5 @@ fn is_compatible(a_id: usize, b_id: usize, program: &Program) -> bool {
         (_, Type::Union(ids)) => ids.iter().any(|&id| is_compatible(a_id, id, program)),
         // For partial compatibility, use the full is_compatible from types module
         _ => quiver_core::types::is_compatible(a_id, b_id, program),
-    }
-}
-
-/// Remove nil from a type (for bindings that strip nil)
-fn without_nil(type_id: usize, program: &mut Program) -> usize {
-    let Some(ty) = program.lookup_type(type_id) else {
-        return type_id;
-    };
-
-    match ty {
-        Type::Union(ids) => {
-            let ids = ids.clone();
-            let filtered: Vec<usize> = ids
-                .into_iter()
-                .filter(|&id| {
-                    if let Some(Type::Tuple(tuple_id)) = program.lookup_type(id) {
-                        // Check if this is the nil tuple (empty tuple with no name)
-                        if let Some(info) = program.lookup_tuple(*tuple_id) {
-                            !(info.fields.is_empty() && info.name.is_none())
-                        } else {
-                            true
-                        }
-                    } else {
-                        true
-                    }
-                })
-                .collect();
-            union_type_ids(program, filtered)
-        }
-        Type::Tuple(tuple_id) => {
-            // Check if this is nil
-            if let Some(info) = program.lookup_tuple(*tuple_id)
-                && info.fields.is_empty()
-                && info.name.is_none()
-            {
-                return program.never();
-            }
-            type_id
-        }
-        _ => type_id,
     }
 }
